@@ -76,6 +76,15 @@ def run(ctx: Ctx) -> int:
 	ctx.log(f'returning modification times: sound keys {tsound.distinct} states OK; replayed {treplay["edges"]} edges ({treplay["stats"].get("runs", 0)} real runs); {len(treplay["failures"])} discrepancies')
 	seen = {v.key for v in violations}
 	violations += [v for v in collect(ctx, PROP, treplay) if v.key not in seen]
+	# long behaviours: random walks chosen by TLC (RandomElement), 13 operations each, replayed step by step
+	from harness.fs_replay import replay_walks
+	wres = tlc.run('TranpWalk', 'TranpWalk_cache.cfg', workers=1, timeout=900, seed=ctx.seed + 1)
+	wedges = [json.loads(line) for line in wres.lines('EDGE ')]
+	wreplay = replay_walks('Chain', wedges)
+	wreplay['graph'] = 'Chain'
+	ctx.log(f'random walks: {wreplay["jobs"]} behaviours of up to {wreplay["longest"]} operations from TranpWalk.tla replayed ({wreplay["stats"].get("runs", 0)} real runs); {len(wreplay["failures"])} discrepancies')
+	seen = {v.key for v in violations}
+	violations += [v for v in collect(ctx, PROP, wreplay) if v.key not in seen]
 
 	coverage = {
 		'states': sound.distinct + coded.distinct,
@@ -92,6 +101,8 @@ def run(ctx: Ctx) -> int:
 		'diamond_edges_replayed_on_impl': dreplay['edges'],
 		'diamond_real_runs': dreplay['stats'].get('runs', 0),
 		'returning_mtime_edges_replayed_on_impl': treplay['edges'],
+		'random_walks_replayed': wreplay['jobs'],
+		'random_walk_length': wreplay['longest'],
 		'samples': [{'history': [e['op'] for e in edges[:1]]}, {'edge': edges[len(edges) // 2]['op']}],
 		'clauses': CLAUSES,
 	}
